@@ -399,10 +399,15 @@ class ArgumentParser:
             parser.add_argument(*option["flags"], **kwargs)
 
         # Make a best-effort attempt to parse arguments.
-        args, unrecognized = parser.parse_known_args(
-            argv + self.compiler.options,
-            namespace,
-        )
+        try:
+            args, unrecognized = parser.parse_known_args(
+                argv + self.compiler.options,
+                namespace,
+            )
+        except argparse.ArgumentError as e:
+            # Keep the options recognized before the malformed argument.
+            log.warning(f"Could not parse all arguments: {e}")
+            args, unrecognized = namespace, []
         if unrecognized:
             log.warning(f"Unrecognized arguments: '{' '.join(unrecognized)}'")
 
